@@ -87,3 +87,123 @@ Definition idlock_uses_v1 : list (string * string) := [
   ("Start", "defer sessionIDMutexes.Unlock(id)");
   ("Session.LogIn", "sessionIDMutexes.Lock(id)");
   ("Session.LogIn", "defer sessionIDMutexes.Unlock(id)")].
+
+(* ------------------------------------------------------------------------ *)
+(* Position of the per-ID lock (Gen/LockPos.v, translator/lockpos.go): for
+   Start and LogIn the statements that matter for the critical section, in
+   source order, as (depth, block, kind, text): block numbers the innermost
+   enclosing { } (function body = 0), kind is lock / defer unlock / get / set /
+   delete / regenerate / destroy / return / assign (to a variable occurring in
+   the lock's argument) / ... (see translator/lockpos.go). The copy the model
+   (Model/Sess.v: start, login as atomic steps; Proofs/C04Conc.v: serialised
+   requests) was written against: *)
+Definition lev := (nat * nat * string * string)%type.
+
+Definition lock_events_v1 : list (string * list lev) := [
+  ("Start", [(0, 0, "assign", "var id string");
+     (1, 2, "assign", "id = cookie.Value");
+     (1, 3, "lock", "id");
+     (1, 3, "defer unlock", "id");
+     (1, 3, "get", "id");
+     (2, 4, "return", "return nil, fmt.Errorf(...)");
+     (2, 13, "destroy", "session");
+     (3, 14, "return", "return nil, fmt.Errorf(...)");
+     (3, 16, "regenerate", "session");
+     (4, 17, "return", "return nil, err");
+     (3, 18, "delete", "id");
+     (4, 19, "return", "return nil, fmt.Errorf(...)");
+     (3, 18, "return", "return nil, errors.New(...)");
+     (4, 21, "get", "currentID");
+     (5, 22, "return", "return nil, fmt.Errorf(...)");
+     (5, 23, "return", "return nil, errors.New(...)");
+     (2, 15, "return", "return session, nil");
+     (2, 25, "return", "return nil, nil");
+     (1, 24, "assign", "id, err = generateSessionID()");
+     (2, 26, "return", "return nil, fmt.Errorf(...)");
+     (1, 24, "set", "session");
+     (2, 27, "return", "return nil, fmt.Errorf(...)");
+     (0, 0, "return", "return session, nil")]);
+  ("Session.LogIn", [(2, 2, "return", "return fmt.Errorf(...)");
+     (0, 0, "assign", "id := s.id");
+     (0, 0, "set", "s");
+     (1, 4, "return", "return fmt.Errorf(...)");
+     (0, 0, "lock", "id");
+     (0, 0, "defer unlock", "id");
+     (0, 0, "regenerate", "s");
+     (1, 5, "return", "return fmt.Errorf(...)");
+     (0, 0, "return", "return nil")])].
+
+(* What the table must say, independently of the exact copy above. *)
+Definition lev_kind (e : lev) : string := snd (fst e).
+Definition kind_in (ks : list string) (e : lev) : bool :=
+  existsb (String.eqb (lev_kind e)) ks.
+(* statements that touch neither the session table nor the lock manager *)
+Definition lev_inert : lev -> bool := kind_in ["return"; "assign"].
+(* ... or that write a session back (LogIn stores the user before it locks) *)
+Definition lev_inert_or_set : lev -> bool := kind_in ["return"; "assign"; "set"].
+(* statements allowed after the lock is held: returns, assignments and
+   synchronous operations on the session table - no second use of the lock
+   manager (an early Unlock, a second Lock), nothing deferred or started as a
+   goroutine, no function literal *)
+Definition lev_plain : lev -> bool :=
+  kind_in ["return"; "assign"; "get"; "set"; "delete"; "regenerate"; "destroy"].
+
+(* [lock_shape pre_ok op same_arg evs]: the events are
+     pre ++ [Lock(a); defer Unlock(a); op(a')] ++ post
+   with the three in one block at one depth and directly after one another
+   (so nothing that matters lies between them, in particular no assignment to
+   a variable of a), every event of pre satisfying pre_ok, every event of post
+   plain, and a' = a when same_arg. *)
+Definition lock_shape (pre_ok : lev -> bool) (op : string) (same_arg : bool)
+    (evs : list lev) : Prop :=
+  exists pre d b a a' post,
+    evs = (pre ++ [(d, b, "lock", a); (d, b, "defer unlock", a); (d, b, op, a')] ++ post)%list /\
+    (same_arg = true -> a' = a) /\
+    forallb pre_ok pre = true /\ forallb lev_plain post = true.
+
+Fixpoint lock_shapeb (pre_ok : lev -> bool) (op : string) (same_arg : bool)
+    (evs : list lev) : bool :=
+  match evs with
+  | [] => false
+  | (d, b, k, a) :: rest =>
+    if String.eqb k "lock" then
+      match rest with
+      | (d1, b1, k1, a1) :: (d2, b2, k2, a2) :: post =>
+        String.eqb k1 "defer unlock" && String.eqb k2 op &&
+        Nat.eqb d1 d && Nat.eqb b1 b && Nat.eqb d2 d && Nat.eqb b2 b &&
+        String.eqb a1 a && (negb same_arg || String.eqb a2 a) &&
+        forallb lev_plain post
+      | _ => false
+      end
+    else pre_ok (d, b, k, a) && lock_shapeb pre_ok op same_arg rest
+  end.
+
+Lemma lock_shapeb_sound : forall pre_ok op same_arg evs,
+  lock_shapeb pre_ok op same_arg evs = true -> lock_shape pre_ok op same_arg evs.
+Proof.
+  intros pre_ok op same_arg evs; induction evs as [|[[[d b] k] a] rest IH]; intro H.
+  - discriminate H.
+  - cbn [lock_shapeb] in H. destruct (String.eqb k "lock") eqn:Hk.
+    + apply String.eqb_eq in Hk; subst k.
+      destruct rest as [|[[[d1 b1] k1] a1] [|[[[d2 b2] k2] a2] post]]; try discriminate H.
+      repeat (apply Bool.andb_true_iff in H; destruct H as [H ?]).
+      repeat match goal with
+             | E : String.eqb _ _ = true |- _ => apply String.eqb_eq in E
+             | E : Nat.eqb _ _ = true |- _ => apply PeanoNat.Nat.eqb_eq in E
+             end.
+      subst. exists [], d, b, a, a2, post. repeat split; auto.
+      intro Hs; subst same_arg.
+      match goal with E : (negb true || _)%bool = true |- _ =>
+        cbn in E; apply String.eqb_eq in E; exact E end.
+    + apply Bool.andb_true_iff in H; destruct H as [Hp H].
+      destruct (IH H) as (pre & d0 & b0 & a0 & a' & post & E & Hs & Hpre & Hpost).
+      exists ((d, b, k, a) :: pre), d0, b0, a0, a', post. repeat split; auto.
+      * rewrite E; reflexivity.
+      * cbn [forallb]; rewrite Hp, Hpre; reflexivity.
+Qed.
+
+Definition events_of (f : string) (tbl : list (string * list lev)) : list lev :=
+  match find (fun p => String.eqb (fst p) f) tbl with
+  | Some p => snd p
+  | None => []
+  end.
